@@ -318,6 +318,15 @@ impl Engine for NetEngine {
                     rep.violate("C13/e2e-host-or-authority-wrong", m.clone());
                 }
             }
+            // nothing in this leg breaks a connection or cancels a request: a request that fails or arrives
+            // altered was put on the wire in a form its connection's protocol does not accept
+            for id in 0..case.reqs.len() {
+                if let Some((sig, msg)) = judge_request(case, &obs, id) {
+                    if !sig.starts_with("unavailable-after-abandoned-dial") {
+                        rep.violate(format!("C13/e2e-request-failed-or-altered/{sig}"), msg);
+                    }
+                }
+            }
             if case.reqs.iter().any(|r| redirect_target(case, r).is_some()) {
                 rep.class("redirect-followed");
             }
@@ -724,6 +733,9 @@ pub fn run(ctx: &Ctx) -> i32 {
             if rf.engine == "bodyadapt" {
                 return replay_one(ctx, &crate::engines::bodyadapt::BodyEngine, &rf);
             }
+            if rf.engine == "queueaccept" {
+                return replay_one(ctx, &crate::engines::socksrv::QueueAcceptEngine, &rf);
+            }
             if rf.engine == "makeready" {
                 return replay_one(ctx, &crate::engines::socksrv::MakeReadyEngine, &rf);
             }
@@ -807,6 +819,8 @@ pub fn run(ctx: &Ctx) -> i32 {
             total.merge(crate::props::stack::leg(ctx, "C09"));
             // a make-service with back-pressure: the accept loop must respect poll_ready
             total.merge(run_generated(ctx, &crate::engines::socksrv::MakeReadyEngine, "capped-make-service", crate::engines::socksrv::makeready_strategy, ctx.cases(3_000, 100_000), 100));
+            // connections that are already faulty when they are accepted (custom `Accept` impl, with and without TLS)
+            total.merge(run_generated(ctx, &crate::engines::socksrv::QueueAcceptEngine, "faulty-before-accept", crate::engines::socksrv::queue_strategy, ctx.cases(3_000, 100_000), 100));
             // accept loops written against the duplex listener's Stream interface
             total.merge(run_generated(ctx, &crate::engines::socksrv::DupStreamEngine, "duplex-stream-accept-loop", crate::engines::socksrv::dupstream_strategy, ctx.cases(3_000, 100_000), 100));
             // real TCP / Unix acceptors (real time): reset or close before accept, garbage, truncation
